@@ -888,17 +888,22 @@ theorem C06_tamper_fails_multisig (c : Coin) (s s' : State) (idx : Nat) (w : Wra
 
 /-! ### from a committed field that differs to committed bytes that differ -/
 
+/-- the legacy message of input `idx` for script code `code` and hash-type word `ht`, outside the SIGHASH_SINGLE-without-output
+case: the wire form of the blanked transaction, then the hash-type word (`legacyPreimage_tmp`) -/
+def legacyMsg (tx : Tx) (code : Bytes) (idx ht : Nat) : Bytes :=
+  Spec.Wire.legacy (tmpOf tx (strippedBody code ++ instrTail code) idx ht) ++ le 4 ht
+
 /-- C06.tampered_of_fields (legacy digest: Bitcoin, Litecoin, Groestlcoin, non-witness inputs).  If the fields the hash type
 `ht` commits to (`legacyFields`: `C06_committed_fields_legacy`; the script code with its OP_CODESEPARATORs removed is one of
 them, so `code'` may be another script: "the script being satisfied") differ between the two states — both in scope, neither in
-the SIGHASH_SINGLE-without-output case — then the committed bytes exist in both and differ: the hypothesis `Tampered` of
-`C06_tamper_fails_*`, with **no** further assumption. -/
+the SIGHASH_SINGLE-without-output case — then the committed bytes exist in both, are the two legacy messages, and differ: the
+hypothesis `Tampered` of `C06_tamper_fails_*`, with **no** further assumption. -/
 theorem C06_tampered_of_fields_legacy (c : Coin) (hc : requiresForkId c = false) (s s' : State) (idx : Nat) (code code' : Bytes)
     (ht : Nat) (hx : InScope s.tx idx code) (hy : InScope s'.tx idx code') (hht : ht < 2 ^ 32)
     (hb : isBug s.tx idx ht = false) (hb' : isBug s'.tx idx ht = false)
     (hdiff : legacyFields s.tx (strippedBody code ++ instrTail code) idx ht ≠
       legacyFields s'.tx (strippedBody code' ++ instrTail code') idx ht) :
-    ∃ p p', Tampered c s s' false code code' idx ht p p' := by
+    Tampered c s s' false code code' idx ht (legacyMsg s.tx code idx ht) (legacyMsg s'.tx code' idx ht) := by
   obtain ⟨hdel, hsl, _⟩ := strip_serializeScriptCode_all code
   obtain ⟨hdel', hsl', _⟩ := strip_serializeScriptCode_all code'
   have hs : LenOk (strippedBody code ++ instrTail code) := by have := hx.len; unfold LenOk at this ⊢; omega
@@ -910,11 +915,13 @@ theorem C06_tampered_of_fields_legacy (c : Coin) (hc : requiresForkId c = false)
   simp only [Bool.false_eq_true, if_false] at e1 e2
   have hp : ∀ (st : State) (cd : Bytes), preimageOf c st false cd idx ht = Sighash.legacyPreimage c st.tx cd idx ht := by
     intro st cd; simp [preimageOf, hc]
-  refine ⟨_, _, ⟨by rw [hp, e1], by rw [hp, e2], ?_⟩⟩
+  refine ⟨by rw [hp, e1]; rfl, by rw [hp, e2]; rfl, ?_⟩
   intro heq
   apply hdiff
   apply (C06_committed_fields_legacy c s.tx s'.tx idx code code' hx hy ht hht hb hb').mp
-  rw [e1, e2, heq]
+  rw [e1, e2]
+  unfold legacyMsg at heq
+  rw [heq]
 
 /-- C06.tampered_of_fields (BIP143 message: witness inputs of every class, every input of the fork-id classes; `ht'` = the
 hash-type word with the fork id folded in).  If the listed fields (`fields143`, incl. the spent amount) differ, the committed
@@ -960,6 +967,34 @@ theorem C06_tampered_of_fields_bip143_partial (c : Coin) (s s' : State) (idx : N
   exact (C06_committed_fields_bip143 (segwitPartsSingleSha c) s.tx s'.tx hwf hwf' idx idx hidx hidx' code code hcode hcode
     _ _ ha ha' _ _ hht hht (fun a b ha hb hab => by subst ha; subst hb; exact hP hab)
     (fun a b ha hb hab => by subst ha; subst hb; exact hS hab) (fun l l' hl hl' hab => hO l l' hl hl' hab) hZ).mp heq
+
+open Pycoin.Sign in
+/-- **C06.tamper_fails, the property's sentence for a P2PKH input of a legacy-digest class, end to end.**  After signing (`s`:
+the input validates), any change of the transaction that leaves the input's unlocking data and spent script alone and changes
+a field its hash type `ht` (the last byte of the signature) commits to — `legacyFields`: for SIGHASH_ALL the version, the lock
+time, every outpoint and sequence number, every output amount and script — makes `is_solution_ok` not return `True`, under
+`CollisionFree` of the class's digest function on {legacy message of `s`, legacy message of `s'`} and `NoForgery` of the
+signature for their two digests.  (Hypotheses that are facts about the two states, not assumptions: both in wire range with
+the input present, neither in the SIGHASH_SINGLE-without-output case, `s'` not of the coinbase shape — inside `InputIs`.) -/
+theorem C06_tamper_fails_p2pkh_fields (c : Coin) (hc : requiresForkId c = false) (s s' : State) (idx : Nat) (sig key h : Bytes)
+    (ht : UInt8)
+    (hi : InputIs s idx (pushesOf [sig, key]) [] (p2pkhScript h))
+    (hi' : InputIs s' idx (pushesOf [sig, key]) [] (p2pkhScript h)) (hlen : h.length = 20)
+    (hs2 : 2 ≤ sig.length) (hs : sig.length ≤ 75) (hk2 : 2 ≤ key.length) (hk : key.length ≤ 75)
+    (hl : sig.getLast? = some ht)
+    (hvalid : isSolutionOk (stdVM c) c s idx = .ok true)
+    (hx : InScope s.tx idx (baseCode (p2pkhScript h) [sig])) (hy : InScope s'.tx idx (baseCode (p2pkhScript h) [sig]))
+    (hb : isBug s.tx idx ht.toNat = false) (hb' : isBug s'.tx idx ht.toNat = false)
+    (hdiff : legacyFields s.tx (strippedBody (baseCode (p2pkhScript h) [sig]) ++ instrTail (baseCode (p2pkhScript h) [sig])) idx ht.toNat ≠
+      legacyFields s'.tx (strippedBody (baseCode (p2pkhScript h) [sig]) ++ instrTail (baseCode (p2pkhScript h) [sig])) idx ht.toNat)
+    (hCR : CollisionFree (msgHash c false) (legacyMsg s.tx (baseCode (p2pkhScript h) [sig]) idx ht.toNat)
+      (legacyMsg s'.tx (baseCode (p2pkhScript h) [sig]) idx ht.toNat))
+    (hUF : NoForgery [key] sig (msgDigest c false (legacyMsg s.tx (baseCode (p2pkhScript h) [sig]) idx ht.toNat))
+      (msgDigest c false (legacyMsg s'.tx (baseCode (p2pkhScript h) [sig]) idx ht.toNat))) :
+    isSolutionOk (stdVM c) c s' idx ≠ .ok true :=
+  C06_tamper_fails_p2pkh c s s' idx sig key h ht _ _ hi hi' hlen hs2 hs hk2 hk hl hvalid
+    (C06_tampered_of_fields_legacy c hc s s' idx _ _ ht.toNat hx hy
+      (by have := ht.toNat_lt; omega) hb hb' hdiff) hCR hUF
 
 /-! ### "the script being satisfied": the data push of the spent script
 
@@ -1226,6 +1261,15 @@ example : InputIs (exTamper exP2pkh) 0 (pushesOf [exSigA, exK1]) [] (p2pkhScript
     preimageOf .btc { exP2wpkh with us := [some ⟨10001, witnessV0Script exH2⟩] } true (p2pkhScript exH2) 0 1 with
   | .ok (some p), .ok (some p') =>
     p != p' && sigVerifies exK2 exSigW (msgDigest .btc true p) && !sigVerifies exK2 exSigW (msgDigest .btc true p')
+  | _, _ => false)
+-- the hypotheses of `C06_tamper_fails_p2pkh_fields` on this instance: the committed fields differ, and the committed bytes of the
+-- model are the legacy messages named in `hCR` / `hUF`
+#guard (let code := baseCode (p2pkhScript exH1) [exSigA]
+  legacyFields exP2pkh.tx (strippedBody code ++ instrTail code) 0 1 !=
+    legacyFields (exTamper exP2pkh).tx (strippedBody code ++ instrTail code) 0 1)
+#guard (let code := baseCode (p2pkhScript exH1) [exSigA]
+  match preimageOf .btc exP2pkh false code 0 1, preimageOf .btc (exTamper exP2pkh) false code 0 1 with
+  | .ok (some p), .ok (some p') => p == legacyMsg exP2pkh.tx code 0 1 && p' == legacyMsg (exTamper exP2pkh).tx code 0 1
   | _, _ => false)
 -- the spent amount is committed for the witness input and not for the legacy one
 #guard exFails { exP2wpkh with us := [some ⟨10001, witnessV0Script exH2⟩] }
